@@ -122,6 +122,9 @@ def compare_get(get, mvars, gmap):
 def sample_value(rng, ty, digits=5):
     if ty in ("f32", "f64") and rng.random() < 0.12:
         return "0"          # an option given explicitly with the value zero is still GIVEN
+    if ty == "f64" and rng.random() < 0.3:
+        # a double that needs all 17 significant digits (what repr() of a computed value looks like in a scan script)
+        return repr(rng.uniform(0.1, 9.9) * 10.0 ** rng.randint(-6, 6))
     if ty in ("f32", "f64", "vecf32"):
         mant = rng.randint(10 ** (digits - 1), 10 ** digits - 1)
         ex = rng.randint(-6, 6)
